@@ -293,6 +293,95 @@ func c06() []*Ob {
 					c.Site(token.NoPos, "no fill-on-miss memo in frac/processor (nothing to pair)")
 				}
 			}},
+		{Prop: "C06", ID: "C06.6", Engine: "PAIR(parallel arrays)", Floor: 2,
+			Desc: "one posting source per token, in the token's position: every implementation of tokenIndex.GetLIDsFromTIDs writes into its result (append, or a store at an index) on every iteration of the loop that does it — the aggregation numbers its sources by position in that slice and SourcedNodeIterator.ValueBySource resolves tids[source]; a token skipped because it has no postings in the range shifts every later source onto the wrong token (wrong group label, wrong numeric value), on active fractions and partial time ranges only",
+			Check: func(c *Ctx) {
+				n := 0
+				for _, fn := range c.P.Funcs {
+					if !c.P.InRepo(fn) || fn.Blocks == nil || fn.Signature.Recv() == nil || fn.Name() != "GetLIDsFromTIDs" {
+						continue
+					}
+					n++
+					isNodeSlice := func(t types.Type) bool {
+						sl, ok := t.Underlying().(*types.Slice)
+						return ok && strings.HasSuffix(TypeStr(sl.Elem()), "node.Node")
+					}
+					writes := 0
+					for _, b := range fn.Blocks {
+						for _, in := range b.Instrs {
+							var at ssa.Instruction
+							switch x := in.(type) {
+							case *ssa.Call:
+								if CallName(x) == "builtin.append" && isNodeSlice(x.Type()) {
+									at = x
+								}
+							case *ssa.Store:
+								if ia, ok := x.Addr.(*ssa.IndexAddr); ok && isNodeSlice(ia.X.Type()) {
+									at = x
+								}
+							}
+							if at == nil {
+								continue
+							}
+							writes++
+							inLoop, every := EveryIteration(at)
+							switch {
+							case !inLoop:
+								c.Site(at.Pos(), "%s: result written outside a loop", FuncName(fn))
+							case every:
+								c.Site(at.Pos(), "%s: a posting source is written on every iteration", FuncName(fn))
+							default:
+								c.Violation("pair:sources-parallel:"+FuncName(fn), at.Pos(), "%s skips the write of a token's posting source on some iteration: the returned nodes are no longer parallel to tids, and every later source of an aggregation is resolved to the wrong token", FuncName(fn))
+							}
+						}
+					}
+					if writes == 0 {
+						c.Undecided("pair:sources-parallel:nowrite:"+FuncName(fn), fn.Pos(), "%s: cannot see where the result slice is filled", FuncName(fn))
+					}
+				}
+				if n == 0 {
+					c.Undecided("pair:sources-parallel:noimpl", 0, "no GetLIDsFromTIDs implementation found")
+				}
+			}},
+		{Prop: "C06", ID: "C06.7", Engine: "PROV(per element)", Floor: 1,
+			Desc: "each aggregation is binned by its own interval: the time extractor handed to evalAgg is built, inside the loop over the request's aggregations, from the Interval of the query of that iteration — one extractor shared by all (built from the first non-zero interval, say) splits a plain aggregation into time bins and bins a second time series by the first one's interval; merging and the proxy carry the wrong bins on faithfully",
+			Check: func(c *Ctx) {
+				fn := c.Fn("frac/processor.IndexSearch")
+				if fn == nil {
+					return
+				}
+				calls := c.P.FindLifted(fn, CallSel(Callee("frac/processor.evalAgg")))
+				if len(calls) == 0 {
+					c.Undecided("prov:agg-interval:nocall", fn.Pos(), "IndexSearch no longer calls evalAgg")
+				}
+				for _, lc := range calls {
+					call := lc.Call()
+					l := InnermostLoop(call.(ssa.Instruction).Block())
+					var ext ssa.Value
+					for _, a := range call.Common().Args {
+						if _, isFunc := a.Type().Underlying().(*types.Signature); isFunc {
+							ext = a
+						}
+					}
+					if ext == nil {
+						c.Undecided("prov:agg-interval:noarg", call.Pos(), "evalAgg no longer receives a time extractor")
+						continue
+					}
+					if l == nil {
+						c.Site(call.Pos(), "evalAgg is called outside a loop (one aggregation)")
+						continue
+					}
+					own := DerivesFrom(ext, func(v ssa.Value) bool {
+						in, isIn := v.(ssa.Instruction)
+						return isIn && ValueIsField(v, "frac/processor.AggQuery", "Interval") && in.Parent() == call.Parent() && l.Blocks[in.Block()]
+					})
+					if own {
+						c.Site(call.Pos(), "the time extractor is built from the Interval of this iteration's query")
+					} else {
+						c.Violation("prov:agg-interval:shared", call.Pos(), "the time extractor given to evalAgg is not built from the Interval of the aggregation of this iteration (it is loop-invariant or comes from elsewhere): aggregations with different intervals in one request are binned alike")
+					}
+				}
+			}},
 		{Prop: "C06", ID: "C06.4", Engine: "ENUM+DIV", Floor: 1,
 			Desc: "switch coverage: processor.evalAgg, seq's aggregate computation and proxyapi.validateAgg handle every aggregation function; the time-bin modulo of provideExtractTimeFunc runs only for interval > 0",
 			Check: func(c *Ctx) {
